@@ -21,4 +21,5 @@ Script3 == [s \in Shards3 |->
    ELSE IF s = "sb_101v1" THEN << <<M("ins", "p1")>>, <<M("dropp", "p1")>>, <<M("dropc", "")>> >>
    ELSE << <<M("dropp", "p1"), M("dropc", "")>> >>]
 P1 == {"p1"}
+NoParts == {}
 =============================================================================
